@@ -52,8 +52,11 @@ const FAIL_KINDS: [(&str, &str); 7] = [
 const BAD_SYNTAX: [&str; 6] = ["(if)", "(lambda)", "(let ((x)) x)", "(define)", "()", "(set! 5 6)"];
 const BAD_TEXT: [&str; 4] = ["(+ 1", "(car '(1 2)", ")", "\"abc"];
 
-fn gen_items(bytes: &[u8]) -> Vec<Item> {
+fn gen_items(bytes: &[u8]) -> (Vec<Item>, Option<usize>) {
     let mut c = Choices::new(bytes);
+    // half of the sessions are driven the way the wasm front end drives the VM:
+    // prepare_eval + run_count(budget) until done
+    let slice = if c.flip() { Some(*c.pick(&[1usize, 7, 40, 100, 1000][..])) } else { None };
     let nfail = 1 + c.below(4);
     // decide the injected failures first (so that shrinking the tail shrinks the program)
     let mut fails: Vec<Item> = vec![];
@@ -119,7 +122,7 @@ fn gen_items(bytes: &[u8]) -> Vec<Item> {
         }
     }
     items.push(Item::Plain(probe));
-    items
+    (items, slice)
 }
 
 fn render(items: &[Item]) -> Value {
@@ -159,8 +162,11 @@ fn eval_item(s: &mut SutSession, it: &Item) -> FormResult {
     }
 }
 
-fn check(ctx: &Ctx, items: &[Item]) -> Outcome {
-    let rendered = render(items);
+fn check(ctx: &Ctx, items: &[Item], slice: Option<usize>) -> Outcome {
+    let mut rendered = render(items);
+    if let Some(b) = slice {
+        rendered = json!({"forms": rendered, "driven_in_slices_of": b});
+    }
     // reference: the forms the RI can judge (everything except bad syntax / bad text, which have no effects)
     let ri_forms: Vec<Sx> = items
         .iter()
@@ -171,7 +177,11 @@ fn check(ctx: &Ctx, items: &[Item]) -> Outcome {
         })
         .collect();
     let ri = run_ri(&ri_forms, 300_000);
-    let mut s = SutSession::new(RunOpts::default());
+    let mode = match slice {
+        Some(b) => crate::session::EvalMode::Sliced(vec![b]),
+        None => crate::session::EvalMode::Whole,
+    };
+    let mut s = SutSession::new(RunOpts { mode, ..RunOpts::default() });
     let fresh_sp = s.vm.verif_stack().get_sp();
     let fresh_cap = s.vm.verif_stack().len();
     let mut ri_idx = 0usize;
@@ -298,6 +308,9 @@ fn check(ctx: &Ctx, items: &[Item]) -> Outcome {
         }
     }
     if ctx.counting() {
+        if slice.is_some() {
+            ctx.class("session-driven-in-slices");
+        }
         let nfail = items.iter().filter(|i| !matches!(i, Item::Plain(_))).count();
         ctx.class_n("injected-failures", nfail as u64);
         for it in items {
@@ -318,7 +331,8 @@ fn check(ctx: &Ctx, items: &[Item]) -> Outcome {
 }
 
 fn case(ctx: &Ctx, bytes: &[u8]) -> Outcome {
-    check(ctx, &gen_items(bytes))
+    let (items, slice) = gen_items(bytes);
+    check(ctx, &items, slice)
 }
 
 /// k consecutive failures at depth d: sp, stack capacity and heap must not grow with k.
